@@ -21,10 +21,11 @@ import Drivers.C18Text
 import Drivers.C19
 import Drivers.C20
 import Drivers.Queue
+import Drivers.HeapPtr
 
 /-! `uvdriver <mode>`: every property's driver module contributes its modes. -/
 def allModes : List (String × IO Unit) :=
-  Drivers.C01.modes ++ Drivers.C02.modes ++ Drivers.C03.modes ++ Drivers.C04.modes ++ Drivers.C05.modes ++ Drivers.C06.modes ++ Drivers.C07.modes ++ Drivers.C08.modes ++ Drivers.C09.modes ++ Drivers.C10.modes ++ Drivers.C11.modes ++ Drivers.C12.modes ++ Drivers.C13.modes ++ Drivers.C14.modes ++ Drivers.C15.modes ++ Drivers.C16.modes ++ Drivers.C17.modes ++ Drivers.C18.modes ++ Drivers.C18Text.modes ++ Drivers.C19.modes ++ Drivers.C20.modes ++ Drivers.Queue.modes
+  Drivers.C01.modes ++ Drivers.C02.modes ++ Drivers.C03.modes ++ Drivers.C04.modes ++ Drivers.C05.modes ++ Drivers.C06.modes ++ Drivers.C07.modes ++ Drivers.C08.modes ++ Drivers.C09.modes ++ Drivers.C10.modes ++ Drivers.C11.modes ++ Drivers.C12.modes ++ Drivers.C13.modes ++ Drivers.C14.modes ++ Drivers.C15.modes ++ Drivers.C16.modes ++ Drivers.C17.modes ++ Drivers.C18.modes ++ Drivers.C18Text.modes ++ Drivers.C19.modes ++ Drivers.C20.modes ++ Drivers.Queue.modes ++ Drivers.HeapPtr.modes
 
 def main (args : List String) : IO UInt32 := do
   match args with
